@@ -22,7 +22,7 @@ The one hypothesis on configurations is `CapsPos`: a bounded cache has capacity 
 capacity 0 the first `Set` panics in Go (C15 `cap0_panics`), which is outside this property.
 -/
 namespace AsherahVerif.Props.C09
-open AsherahVerif.Env
+open AsherahVerif.Env AsherahVerif.Env.Res
 
 /-! ### the resource invariant -/
 
